@@ -103,7 +103,7 @@ theorem lineFilter_ids (d : LineDef) (mt : Match) : Pres IdsNodup (lineFilter re
   have hm := fun mt r e => (replaceMatch_frame rec env hs mt r e).idsNodup
   have hms := macrosSetValue_ids
   ids_start
-  unfold lineFilter isSafeModeNz blockSetDefinition quotesSetDefinition replSetDefinition setOption documentInit
+  unfold lineFilter isSafeModeNz blockSetDefinition quotesSetDefinition replSetDefinition setOptionInDocument setOption documentInit
   simp only [bind_assoc, pure_bind]
   wp_go
   all_goals ids_leaf
@@ -203,7 +203,7 @@ theorem documentLoop_ids : ∀ fuel r w, Pres IdsNodup (documentLoop rec env fue
   | zero => intro r w; ids_start; unfold documentLoop; wp_go
   | succ n ih => intro r w; ids_start; unfold documentLoop; wp_go
 
-theorem documentRender_ids (fuel : Nat) (src : Str) (d : Nat) : Pres IdsNodup (documentRender rec env fuel src d) := by
+theorem documentRender_ids (fuel : Nat) (src : Str) (d : Depth) : Pres IdsNodup (documentRender rec env fuel src d) := by
   have h := documentLoop_ids rec env hs hd
   ids_start; unfold documentRender; wp_go
 
